@@ -72,6 +72,14 @@ def shapes(t, tier, rng):
                     S.add((M, K, N))
         for M in (9, 13, 16, 17):
             S.add((M, 5, M)); S.add((M, M, 3))
+        # every row-remainder class of the hand-unrolled small-N kernels (blocks of 10, 5 and 4 rows) and the interior blocks of the
+        # blocked kernel (coverage accounting showed these unreached): all M in 1..21 against N below, at, and at small multiples of a width
+        if t in ('f32', 'f64', 'i32'):
+            for M in range(6, 22):
+                for N in (2, 3, 4, 7, 8, 16):
+                    S.add((M, 2, N))
+            for (M, K, N) in [(12, 5, 16), (16, 16, 16), (20, 3, 24), (9, 9, 33), (10, 4, 40), (12, 3, 64), (7, 2, 80)]:
+                S.add((M, K, N))
     else:
         box = 10 if t in ('f32', 'f64', 'i32') else 6
         for M in range(1, box + 1):
